@@ -303,7 +303,8 @@ pub fn run(case: &Case, _known: &BTreeSet<String>) -> Outcome {
         let want = 400.min(total);
         for _ in 0..want {
             let i = rng.usize_below(muts.len());
-            let (desc, kind, img) = muts.swap_remove(i);
+            let dmg = muts.swap_remove(i);
+            let (desc, kind, img) = (dmg.desc(), dmg.kind(), dmg.image(&base.image));
             o.stats.sub_runs += 1;
             *o.stats.faults_fired.entry(kind.to_string()).or_insert(0) += 1;
             if let Some(v) = strict_implies_permissive(&img) {
